@@ -146,14 +146,18 @@ def run(ctx):
     now_paths = [now for (now, ever) in hp]
     ctx.stats['accept_paths'] = len(paths)
     chpat = re.compile(r'^\(%s\.data\(\) \+ n:(\d+)\)\[n:(\d+)\]$' % re.escape(namek))
+    chpat2 = re.compile(r'^%s\[n:(\d+)\]$' % re.escape(namek))        # the same character keyed as an element of the string
 
     def char_facts(fs):
         out = {}
         for (op, a, b) in fs:
             for (x, y) in ((a, b), (b, a)):
                 m = chpat.match(x)
+                m2 = chpat2.match(x)
                 if m and y.startswith('n:'):
                     out.setdefault(int(m.group(1)) + int(m.group(2)), []).append((op, int(y[2:])))
+                elif m2 and y.startswith('n:'):
+                    out.setdefault(int(m2.group(1)), []).append((op, int(y[2:])))
         return out
     reqs = [
         ('length == prefix + 9', lambda fs, cf: ('==', '%s.size()' % namek, 'n:%d' % (plen + 9)) in fs or
